@@ -129,6 +129,8 @@ def make_time(spec: dict) -> datetime:
         return utc.astimezone(pytz.UTC)
     if rp.startswith("fixed:"):
         return utc.astimezone(timezone(timedelta(minutes=int(rp[6:]))))
+    if rp.startswith("fixeds:"):
+        return utc.astimezone(timezone(timedelta(seconds=int(rp[7:]))))
     if rp.startswith("pytz:"):
         return utc.astimezone(pytz.timezone(rp[5:]))
     if rp.startswith("zi:"):
